@@ -56,8 +56,8 @@ func isTxnIDLoad(v ssa.Value) (ssa.Value, bool) {
 func returnsOf(fn *ssa.Function) []*ssa.Return {
 	var out []*ssa.Return
 	for _, b := range fn.Blocks {
-		if len(b.Instrs) == 0 {
-			continue
+		if len(b.Instrs) == 0 || b == fn.Recover {
+			continue // the recover block re-returns the result slots after a recovered panic
 		}
 		if r, ok := b.Instrs[len(b.Instrs)-1].(*ssa.Return); ok {
 			out = append(out, r)
@@ -853,4 +853,30 @@ func ruleOwnedField(c *Ctx, r *Reporter) {
 			}
 		}
 	}
+}
+
+// retValues resolves defer-spilled results: in a function with defers go/ssa
+// stores each result into a slot, runs the defers and returns loads of the
+// slots. The effective value is what was stored in the slot in that block.
+func retValues(ret *ssa.Return) []ssa.Value {
+	out := make([]ssa.Value, len(ret.Results))
+	b := ret.Block()
+	for i, r := range ret.Results {
+		out[i] = r
+		p, ok := isLoad(r)
+		if !ok {
+			continue
+		}
+		a, ok := p.(*ssa.Alloc)
+		if !ok {
+			continue
+		}
+		for j := len(b.Instrs) - 1; j >= 0; j-- {
+			if st, ok := b.Instrs[j].(*ssa.Store); ok && st.Addr == ssa.Value(a) {
+				out[i] = st.Val
+				break
+			}
+		}
+	}
+	return out
 }
